@@ -599,7 +599,13 @@ def run_icm(job, R):
         for pay in product(pay_vals, repeat=m):
             if any(a < b for a, b in zip(pay, pay[1:])) or not any(pay):
                 continue
-            for chips in product(range(1, job['cmax'] + 1), repeat=n):
+            for chips in product(range(0, job['cmax'] + 1), repeat=n):
+                if sum(1 for x in chips if x) < m:
+                    # more paid places than players with chips: the model divides nothing by nothing - not judged
+                    R.c['icm_vectors_with_fewer_stacks_than_paid_places_not_judged'] += 1
+                    continue
+                if 0 in chips:
+                    R.c['icm_vectors_with_a_busted_player'] += 1
                 R.evals += 1
                 cfg = {'payouts': pay, 'chips': chips}
                 try:
